@@ -255,3 +255,274 @@ Proof.
   unfold remove_vars in Hv. apply filter_In in Hv. destruct Hv as [_ Hv].
   rewrite Hg in Hv. discriminate.
 Qed.
+
+(* ---- what the boolean checker of the .clump rows means ------------------------------------------ *)
+
+Inductive greedy_ids (p1 kb : Q) (pb : svar -> svar -> bool) : list svar -> list orow -> Prop :=
+| gi_stop st :
+    (forall v, In v st -> eligible p1 v = false) ->
+    greedy_ids p1 kb pb st []
+| gi_step st pre iv post ms rest :
+    st = pre ++ iv :: post ->
+    (forall v, In v pre -> sv_id v <> sv_id iv) ->
+    eligible p1 iv = true ->
+    (forall v, In v st -> eligible p1 v = true -> (sv_p iv <= sv_p v)%Q) ->
+    (forall v, In v pre -> eligible p1 v = true -> (sv_p iv < sv_p v)%Q) ->
+    (forall x, In x ms <-> In x (map sv_id (members kb pb iv st))) -> NoDup ms ->
+    greedy_ids p1 kb pb (filter (fun v => negb (memZ (sv_id v) (sv_id iv :: ms))) st) rest ->
+    greedy_ids p1 kb pb st ((sv_id iv, ms) :: rest).
+
+Lemma split_at_spec x l pre iv post :
+  split_at x l = Some (pre, iv, post) ->
+  l = pre ++ iv :: post /\ sv_id iv = x /\ forall v, In v pre -> sv_id v <> x.
+Proof.
+  revert pre. induction l as [|v r IH]; intros pre H; [discriminate|]. cbn [split_at] in H.
+  destruct (sv_id v =? x) eqn:E.
+  - inversion H; subst. apply Z.eqb_eq in E. split; [reflexivity|]. split; [exact E|intros ? []].
+  - destruct (split_at x r) as [[[pre' iv'] post']|]; [|discriminate]. inversion H; subst.
+    destruct (IH pre' eq_refl) as (E1 & E2 & E3). split; [rewrite E1; reflexivity|]. split; [exact E2|].
+    intros w [<-|Hw]; [apply Z.eqb_neq; exact E|apply E3; exact Hw].
+Qed.
+
+Lemma memZ_In x l : memZ x l = true <-> In x l.
+Proof.
+  unfold memZ. rewrite existsb_exists. split.
+  - intros (y & Hy & E). apply Z.eqb_eq in E. subst. exact Hy.
+  - intro H. exists x. split; [exact H|apply Z.eqb_refl].
+Qed.
+
+Lemma nodupb_sound l : nodupb l = true -> NoDup l.
+Proof.
+  induction l as [|a l IH]; intro H; [constructor|]. cbn in H. apply andb_true_iff in H. destruct H as [H1 H2].
+  constructor; [|apply IH; exact H2]. intro K. apply memZ_In in K. rewrite K in H1. discriminate.
+Qed.
+
+Lemma same_set_sound a b : same_set a b = true -> (forall x, In x a <-> In x b) /\ NoDup a.
+Proof.
+  unfold same_set. rewrite !andb_true_iff, !forallb_forall. intros [[H1 H2] H3].
+  split; [|apply nodupb_sound; exact H3]. intro x. split; intro K; apply memZ_In; [apply H1|apply H2]; exact K.
+Qed.
+
+Lemma greedy_okb_sound p1 kb pb : forall obs st,
+  greedy_okb p1 kb pb st obs = true -> greedy_ids p1 kb pb st obs.
+Proof.
+  induction obs as [|[i ms] rest IH]; intros st H; cbn [greedy_okb] in H.
+  - apply gi_stop. rewrite forallb_forall in H. intros v Hv. apply negb_true_iff. apply H. exact Hv.
+  - destruct (split_at i st) as [[[pre iv] post]|] eqn:S; [|discriminate].
+    destruct (split_at_spec _ _ _ _ _ S) as (E & Eid & Hfirst). subst i.
+    rewrite !andb_true_iff in H. destruct H as [[[[H1 H2] H3] H4] H5].
+    rewrite forallb_forall in H2, H3. destruct (same_set_sound _ _ H4) as [SS ND].
+    eapply gi_step; try eassumption.
+    + intros v Hv El. specialize (H2 v Hv). rewrite El in H2. cbn in H2. apply Qle_bool_iff. exact H2.
+    + intros v Hv El. specialize (H3 v Hv). rewrite El in H3. cbn in H3. apply Qlt_bool_iff. exact H3.
+    + apply IH. exact H5.
+Qed.
+
+Lemma nodup_ids_filter (f : svar -> bool) l : NoDup (map sv_id l) -> NoDup (map sv_id (filter f l)).
+Proof.
+  induction l as [|v r IHr]; intro ND; [constructor|]. cbn [map] in ND. inversion ND as [|? ? NI ND']; subst.
+  cbn [filter]. destruct (f v); [|apply IHr; exact ND']. cbn [map]. constructor; [|apply IHr; exact ND'].
+  intro K. apply NI. apply in_map_iff in K. destruct K as (w & Ew & Hw). apply filter_In in Hw.
+  rewrite <- Ew. apply in_map. tauto.
+Qed.
+
+Lemma existsb_ids x (l : list svar) :
+  existsb (fun v0 : svar => sv_id v0 =? x) l = existsb (Z.eqb x) (map sv_id l).
+Proof.
+  induction l as [|w r IHr]; [reflexivity|]. cbn [existsb map]. rewrite IHr, (Z.eqb_sym (sv_id w)). reflexivity.
+Qed.
+
+(* the model's own output passes the checker's specification: the two characterisations agree *)
+Lemma greedy_to_ids p1 kb pb st cl :
+  NoDup (map sv_id st) -> greedy p1 kb pb st cl -> greedy_ids p1 kb pb st (ids_of cl).
+Proof.
+  intros ND G. induction G as [st H|st pre iv post rest E El Hmin Hpre G IH].
+  - apply gi_stop. exact H.
+  - cbn [ids_of map fst snd]. fold (ids_of rest).
+    assert (NoDup (map sv_id (members kb pb iv st))) as NDm.
+    { unfold members. apply nodup_ids_filter. exact ND. }
+    assert (remove_vars (members kb pb iv st ++ [iv]) st
+            = filter (fun v => negb (memZ (sv_id v) (sv_id iv :: map sv_id (members kb pb iv st)))) st) as ER.
+    { unfold remove_vars. apply filter_ext. intro v. f_equal.
+      unfold has_id, memZ. rewrite existsb_app. cbn [existsb]. rewrite orb_false_r.
+      rewrite (Z.eqb_sym (sv_id iv)). rewrite orb_comm. f_equal.
+      apply existsb_ids. }
+    eapply gi_step; try eassumption.
+    + intros v Hv K. subst st. rewrite map_app in ND. cbn [map] in ND.
+      apply NoDup_remove_2 in ND. apply ND. apply in_or_app. left. rewrite <- K. apply in_map. exact Hv.
+    + intro x. tauto.
+    + rewrite <- ER. apply IH. unfold remove_vars. apply nodup_ids_filter. exact ND.
+Qed.
+
+(* ---- SummaryStats.Load -------------------------------------------------------------------------- *)
+
+Lemma load_rows_below_p2 ks kp kc kq p2 ty rows : forall l,
+  load_rows ks kp kc kq p2 ty rows = Ok l -> Forall (fun v => (sv_p v <= p2)%Q /\ sv_type v = ty) l.
+Proof.
+  induction rows as [|row rest IH]; intros l H; cbn [load_rows] in H.
+  - inversion H. constructor.
+  - destruct row as [|c0 row']; [inversion H; constructor|].
+    destruct (load_row ks kp kc kq p2 ty (c0 :: row')) as [o|e] eqn:R; cbn [bind] in H; [|discriminate].
+    destruct (load_rows ks kp kc kq p2 ty rest) as [l'|e]; cbn [bind] in H; [|discriminate].
+    inversion H; subst. specialize (IH l' eq_refl). destruct o as [v|]; [|exact IH].
+    constructor; [|exact IH].
+    unfold load_row in R.
+    destruct (col kp (c0 :: row')) as [cp|]; cbn [bind] in R; [|discriminate].
+    destruct (need (c_flt cp)) as [p|]; cbn [bind] in R; [|discriminate].
+    destruct (Qlt_bool p2 p) eqn:L; [discriminate|].
+    destruct (col ks (c0 :: row')) as [cs|]; cbn [bind] in R; [|discriminate].
+    destruct (col kc (c0 :: row')) as [cc|]; cbn [bind] in R; [|discriminate].
+    destruct (col kq (c0 :: row')) as [cq|]; cbn [bind] in R; [|discriminate].
+    destruct (need (c_int cq)) as [pos|]; cbn [bind] in R; [|discriminate].
+    inversion R; subst. cbn [sv_p sv_type]. split; [apply Qlt_bool_false; exact L|reflexivity].
+Qed.
+
+(* the result depends only on the cells under the four named columns, wherever they are *)
+Lemma load_rows_columns ks kp kc kq ks' kp' kc' kq' p2 ty rows rows' :
+  Forall2 (fun r r' => (r = [] <-> r' = []) /\
+                       nth_error r ks = nth_error r' ks' /\ nth_error r kp = nth_error r' kp' /\
+                       nth_error r kc = nth_error r' kc' /\ nth_error r kq = nth_error r' kq') rows rows' ->
+  load_rows ks kp kc kq p2 ty rows = load_rows ks' kp' kc' kq' p2 ty rows'.
+Proof.
+  induction 1 as [|r r' rest rest' (E0 & E1 & E2 & E3 & E4) F IH]; [reflexivity|].
+  cbn [load_rows]. destruct r as [|c r0], r' as [|c' r0'].
+  - reflexivity.
+  - exfalso. destruct E0 as [E0 _]. specialize (E0 eq_refl). discriminate.
+  - exfalso. destruct E0 as [_ E0]. specialize (E0 eq_refl). discriminate.
+  - rewrite IH. unfold load_row, col. rewrite E1, E2, E3, E4. reflexivity.
+Qed.
+
+(* ---- clumpstr as a whole never runs out of fuel ------------------------------------------------------ *)
+
+Lemma bind_not {A B} (x : res A) (f : A -> res B) k :
+  x <> Err k -> (forall a, f a <> Err k) -> bind x f <> Err k.
+Proof.
+  intros Hx Hf. destruct x as [a|e]; cbn; [apply Hf|]. intro K. apply Hx. inversion K. reflexivity.
+Qed.
+
+Lemma need_not_timeout {A} (o : option A) : need o <> Err E_Timeout.
+Proof. destruct o; cbn; discriminate. Qed.
+
+Lemma col_not_timeout k row : col k row <> Err E_Timeout.
+Proof. unfold col. destruct (nth_error row k); discriminate. Qed.
+
+Lemma load_rows_not_timeout ks kp kc kq p2 ty rows : load_rows ks kp kc kq p2 ty rows <> Err E_Timeout.
+Proof.
+  induction rows as [|row rest IH]; cbn [load_rows]; [discriminate|].
+  destruct row as [|c0 row']; [discriminate|].
+  apply bind_not.
+  - unfold load_row. apply bind_not; [apply col_not_timeout|]. intro cp.
+    apply bind_not; [apply need_not_timeout|]. intro p. destruct (Qlt_bool p2 p); [discriminate|].
+    apply bind_not; [apply col_not_timeout|]. intro cs. apply bind_not; [apply col_not_timeout|]. intro cc.
+    apply bind_not; [apply col_not_timeout|]. intro cq. apply bind_not; [apply need_not_timeout|]. intro pos.
+    discriminate.
+  - intro o. apply bind_not; [exact IH|]. intro l. discriminate.
+Qed.
+
+Lemma opt_load_not_timeout hdr f p2 ty rows : opt_load hdr f p2 ty rows <> Err E_Timeout.
+Proof.
+  unfold opt_load. destruct rows as [r|]; [|discriminate]. unfold load_stats.
+  repeat (apply bind_not; [apply need_not_timeout|]; intro). apply load_rows_not_timeout.
+Qed.
+
+Lemma load_variant_not_timeout gts v : load_variant gts v <> Err E_Timeout.
+Proof. unfold load_variant. destruct (filter _ gts) as [|g [|g' r]]; discriminate. Qed.
+
+Lemma clumpstr_terminates k : clumpstr pearson_oracle k <> Err E_Timeout.
+Proof.
+  unfold clumpstr.
+  destruct (negb (Bool.eqb (is_some (k_rows_snp k)) (is_some (k_snps k)))); [discriminate|].
+  destruct (negb (Bool.eqb (is_some (k_rows_str k)) (is_some (k_strs k)))); [discriminate|].
+  destruct (k_exact k && is_some (k_rows_str k)); [discriminate|].
+  apply bind_not; [apply opt_load_not_timeout|]. intro s1.
+  apply bind_not; [apply opt_load_not_timeout|]. intro s2.
+  destruct (match k_snps k with Some a => existsb snp_calls_bad (gs_vars a) | None => false end); [discriminate|].
+  apply bind_not.
+  - unfold merged_gts. destruct (k_snps k), (k_strs k); discriminate.
+  - intro gts. apply clump_loop_fuel; [|apply le_n].
+    intros iv c. apply bind_not; [apply load_variant_not_timeout|]. intro gi.
+    apply bind_not; [apply load_variant_not_timeout|]. intro gc.
+    unfold pearson_oracle. cbn [bind]. discriminate.
+Qed.
+
+(* ---- GetOverlappingSamples: every returned pair of indices names the same sample -------------------- *)
+
+Lemma index_from_spec l : forall k s i, In (s, i) (index_from k l) -> nthZ l (i - k) = Some s.
+Proof.
+  induction l as [|a r IH]; intros k s i H; [contradiction|]. cbn [index_from] in H. destruct H as [H|H].
+  - inversion H; subst. rewrite Z.sub_diag. reflexivity.
+  - specialize (IH (k + 1) s i H). unfold nthZ in *.
+    assert (k + 1 <= i) as Hk.
+    { clear IH. revert k H. induction r as [|b r' IHr]; intros k H; [contradiction|]. cbn [index_from] in H.
+      destruct H as [H|H]; [inversion H; lia|]. specialize (IHr (k + 1) H). lia. }
+    destruct (i - (k + 1) <? 0) eqn:E1; [discriminate|]. destruct (i - k <? 0) eqn:E2; [lia|].
+    replace (Z.to_nat (i - k)) with (S (Z.to_nat (i - (k + 1)))) by lia. exact IH.
+Qed.
+
+Lemma insert_s_in x y l : In x (insert_s y l) <-> x = y \/ In x l.
+Proof.
+  induction l as [|z r IH]; cbn [insert_s].
+  - cbn. intuition.
+  - destruct ((fst y <? fst z) || ((fst y =? fst z) && (snd y <=? snd z))); cbn [In].
+    + intuition.
+    + rewrite IH. intuition.
+Qed.
+
+Lemma sort_samples_in x names : In x (sort_samples names) <-> In x (index_from 0 names).
+Proof.
+  unfold sort_samples. induction (index_from 0 names) as [|y r IH]; cbn [fold_right]; [tauto|].
+  rewrite insert_s_in, IH. cbn [In]. intuition.
+Qed.
+
+Lemma overlap_in fuel : forall a b ia ib,
+  In (ia, ib) (overlap fuel a b) -> exists s, In (s, ia) a /\ In (s, ib) b.
+Proof.
+  induction fuel as [|f IH]; intros a b ia ib H; [contradiction|]. cbn [overlap] in H.
+  destruct a as [|[sa xa] ra]; [contradiction|]. destruct b as [|[sb xb] rb]; [contradiction|].
+  destruct (sb <? sa).
+  - destruct (IH _ _ _ _ H) as (s & H1 & H2). exists s. split; [exact H1|right; exact H2].
+  - destruct (sb =? sa) eqn:E.
+    + apply Z.eqb_eq in E. subst sb. destruct H as [H|H].
+      * inversion H; subst. exists sa. split; left; reflexivity.
+      * destruct (IH _ _ _ _ H) as (s & H1 & H2). exists s. split; right; assumption.
+    + destruct (IH _ _ _ _ H) as (s & H1 & H2). exists s. split; [right; exact H1|exact H2].
+Qed.
+
+Lemma overlapping_same_sample snp_names str_names i j :
+  In (i, j) (overlapping snp_names str_names) ->
+  exists s, nthZ snp_names i = Some s /\ nthZ str_names j = Some s.
+Proof.
+  unfold overlapping. intro H. destruct (overlap_in _ _ _ _ _ H) as (s & H1 & H2).
+  apply sort_samples_in in H1. apply sort_samples_in in H2.
+  apply index_from_spec in H1. apply index_from_spec in H2. rewrite Z.sub_0_r in H1, H2.
+  exists s. tauto.
+Qed.
+
+(* ---- ComputeLD checker ------------------------------------------------------------------------------- *)
+
+Lemma Qabs_le_spec a b tol : Qabs_le a b tol = true <-> (a - b <= tol /\ b - a <= tol)%Q.
+Proof. unfold Qabs_le. rewrite andb_true_iff, !Qle_bool_iff. tauto. Qed.
+
+Lemma holds_computeld_sound d o :
+  d_obs d = Ok o -> filter_gts (d_cand d) (d_idx d) <> [] -> holds_computeld d = true ->
+  let l := filter_gts (d_cand d) (d_idx d) in
+  if d_exact d then
+    dosage012 l = true -> constantb fx l || constantb fy l = false ->
+    exists v, o = Some v /\ (0 <= v <= 1)%Q /\
+              (Qeq_bool (n11 (table_of l)) 0 = true ->
+               (v - hap_r2 (table_of l) <= tol_exact /\ hap_r2 (table_of l) - v <= tol_exact)%Q)
+  else match pearson_r2 l, o with
+       | None, None => True
+       | Some v, Some w => (w - v <= tol_pearson /\ v - w <= tol_pearson)%Q
+       | _, _ => False end.
+Proof.
+  intros O NE. unfold holds_computeld. rewrite O. cbn zeta.
+  destruct (filter_gts (d_cand d) (d_idx d)) as [|s l0] eqn:L; [contradiction|].
+  destruct (d_exact d).
+  - intros H D C. rewrite D, C in H. cbn [negb] in H. destruct o as [v|]; [|discriminate].
+    apply andb_true_iff in H. destruct H as [H1 H2]. exists v. split; [reflexivity|].
+    unfold in01 in H1. apply andb_true_iff in H1. rewrite !Qle_bool_iff in H1. split; [exact H1|].
+    intro N. rewrite N in H2. cbn [negb orb] in H2. apply Qabs_le_spec. exact H2.
+  - intro H. destruct (pearson_r2 (s :: l0)) as [v|], o as [w|]; try discriminate; [|exact I].
+    apply Qabs_le_spec. exact H.
+Qed.
